@@ -78,6 +78,11 @@ def check_headers(sgz, S, mode, ctx_labels):
 
 def run_segy(case, ctx):
     d = ctx.tmp()
+    if case.get("prior") is not None and case["src"]["geom"] != "irregular":
+        pdesc = dict(case["src"], fields={}, values={"kind": "gauss", "vseed": case["prior"]}, text_seed=case["prior"] % 997)
+        P = sources.build(pdesc, d)
+        conv.segy_convert(P.path, os.path.join(d, "prior.sgz"), bpv=case.get("bpv", 8), blockshape=None,
+                          reduce_iops=case.get("reduce", False), header_detection=case["mode"])
     S = sources.build(case["src"], d)
     sources.annotate(case, S)
     mode = case["mode"]
@@ -93,7 +98,8 @@ def run_segy(case, ctx):
     stride = (4 * S.n) % 512 == 0
     nontriv = n_arrays >= 3 or "mid" in kinds or (not stride and n_arrays >= 2)
     sig = [mode, S.desc["geom"], min(n_arrays, 6), stride, kinds, case.get("reduce", False)]
-    return {"sig": sig if nontriv else None, "labels": labels + [f"arrays={min(n_arrays, 6)}", "stride512" if stride else "stride-odd"]}
+    return {"sig": sig if nontriv else None, "labels": labels + [f"arrays={min(n_arrays, 6)}", "stride512" if stride else "stride-odd"]
+            + (["after-prior-conversion"] if case.get("prior") is not None else [])}
 
 
 @st.composite
@@ -108,8 +114,13 @@ def segy_cases(draw):
                                    dims=dims))
     if geom == "2d" and draw(st.booleans()):
         src["n_tr"] = draw(st.sampled_from([127, 128, 129, 256, 130]))
-    return {"src": src, "mode": mode, "reduce": draw(st.booleans()) if geom == "regular" else False,
-            "bpv": draw(st.sampled_from([8, 4, 16]))}
+    c = {"src": src, "mode": mode, "reduce": draw(st.booleans()) if geom == "regular" else False,
+         "bpv": draw(st.sampled_from([8, 4, 16]))}
+    if draw(st.integers(0, 3)) == 0:
+        # an earlier conversion, in this process, of a survey of the same geometry whose free header fields are all
+        # constant, stored under the same file name: what was learnt about its headers must not be applied here
+        c["prior"] = draw(st.integers(0, 2 ** 16))
+    return c
 
 
 # ---- NumPy route -----------------------------------------------------------------------------
